@@ -341,3 +341,49 @@ def agree(ctx, world):
                     sample=f"vjp {a.text()[:120]} | jvp {b.text()[:120]}",
                 )
     ctx.floor("A5 factor pairs", n, 55)
+
+
+def alias_agree(ctx, world, modes=("vjp", "jvp")):
+    """A5.alias - two names of ONE NumPy function (np.abs is np.absolute, np.divide is np.true_divide, np.mod is
+    np.remainder, np.conj is np.conjugate) are wrapped as separate primitives with separately written rules: the
+    rules have to be the same function (equal normal forms), otherwise the derivative depends on the spelling."""
+    ctx.describe("A5.alias", "primitives that wrap the same NumPy function object under two names have rules with equal normal forms, per mode and argument (same normal form as A5: helpers inlined, ans -> P(args), casts stripped)")
+    np_ = world.env.np if hasattr(world.env, "np") else None
+    groups = {}
+    for e in world.table.entries:
+        if e.mode not in modes or e.spec != "maker" or not isinstance(e.argnum, int) or not world.in_numpy_scope(e):
+            continue
+        if e.prim is None or e.prim.kind != "wrapped" or not e.prim.qual.startswith("numpy."):
+            continue
+        try:
+            obj = world.env.get_dotted(e.prim.qual)
+        except Exception:
+            obj = None
+        if obj is None:
+            continue
+        groups.setdefault((id(obj), e.mode, e.argnum), []).append(e)
+    n = 0
+    for (oid, mode, k), ents in sorted(groups.items(), key=lambda kv: (kv[1][0].prim_id, kv[0][1], kv[0][2])):
+        names = sorted({e.prim_id for e in ents})
+        if len(names) < 2:
+            continue
+        forms = []
+        for e in ents:
+            nin = elementwise_nin(world, e.prim)
+            ir = world.ir(e)
+            if nin is None or ir is None or not ir.ok:
+                forms = None
+                break
+            forms.append((e, Canon(world, e.prim, nin).nf(ir.result)))
+        if not forms:
+            continue
+        n += 1
+        inst = f"{mode}:{' = '.join(names)}[{k}]"
+        ref_e, ref_nf = forms[0]
+        diff = [(e, a) for e, a in forms[1:] if a.key() != ref_nf.key()]
+        if not diff:
+            ctx.ob("A5.alias", inst, True, ref_e.loc, sample=ref_nf.text()[:120])
+        else:
+            e2, a2 = diff[0]
+            ctx.fail("A5.alias", inst, f"alias:{mode}:{'='.join(names)}[{k}]", f"{ref_e.loc} / {e2.loc}", f"{ref_e.prim_id} and {e2.prim_id} are the same NumPy function but their {mode.upper()} rules differ:  {ref_e.prim_id}: {ref_nf.text()[:120]}   {e2.prim_id}: {a2.text()[:120]}", "the point where the two formulas differ (x = 0 for abs / absolute: 0 versus nan)")
+    ctx.floor("A5.alias alias groups with rules", n, 2)
